@@ -210,3 +210,11 @@ Theorem C01_src_exit_status : forall stats handle,
 Proof. exact x_main_collect_ok_iff. Qed.
 Print Assumptions C01_src_error_update_reaches_exit.
 Print Assumptions C01_src_exit_status.
+
+(* ---- the block job of parblock, translated: a failing kernel copy and a premature end of the source each send an Error
+   update (the job's only report), which the translated main() turns into a non-zero exit status ---- *)
+From Coq Require Import String.
+Theorem C01_src_block_job_reports_failure :
+  x_block_job_arms = [("Ok(0)ifoff+done>=harc.metadata.len()", 0); ("Ok(0)", 1); ("Ok(copied)", 2); ("Err(e)", 1)]%string%N.
+Proof. exact x_block_job_arms_ok. Qed.
+Print Assumptions C01_src_block_job_reports_failure.
